@@ -666,4 +666,593 @@ theorem readSource_some {R : Type} (parseRef : Str → Option R) (ks : ReaderKey
               exact absurd hnb (by simp)
         · exact absurd h (by simp)
 
+
+/-! ### containerd's CRI labels (`AppendInfoHandlerWrapper`) -/
+
+def layersOf (l : List Desc) : List Desc := l.filter (·.isLayer)
+
+/-- `"," + x0 + "," + x1 …` -/
+def preComma : List Str → Str
+  | [] => []
+  | x :: xs => ',' :: x ++ preComma xs
+
+theorem joinComma_cons (x : Str) : ∀ (xs : List Str), joinComma (x :: xs) = x ++ preComma xs
+  | [] => by simp [joinComma, preComma]
+  | y :: r => by
+    simp only [joinComma, preComma]; rw [joinComma_cons y r]; simp
+
+theorem criGetLayers_layersOf (key : Str) : ∀ (tail : List Desc) (acc : Str),
+    criGetLayers key tail acc = criGetLayers key (layersOf tail) acc
+  | [], _ => rfl
+  | l :: ls, acc => by
+    unfold layersOf
+    rw [List.filter_cons]
+    cases hl : l.isLayer with
+    | true =>
+      simp only [if_true, criGetLayers, hl]
+      have ih := fun acc => criGetLayers_layersOf key ls acc
+      unfold layersOf at ih
+      split <;> split <;> first | exact ih _ | rfl
+    | false =>
+      simp only [criGetLayers, hl]
+      exact criGetLayers_layersOf key ls acc
+
+/-- With a non-empty accumulator every further digest is charged one separator: same count as
+`fitCount`. -/
+theorem criGetLayers_acc (key : Str) : ∀ (ls : List Desc) (acc : Str), acc ≠ [] →
+    (∀ l ∈ ls, l.isLayer = true) →
+    criGetLayers key ls acc =
+      acc ++ preComma ((ls.take (fitCount key acc.length (ls.map (·.digest)))).map (·.digest))
+  | [], acc, _, _ => by simp [criGetLayers, fitCount, preComma]
+  | l :: ls, acc, hacc, hall => by
+    have hl := hall l (by simp)
+    simp only [criGetLayers, hl, if_true, hacc, ne_eq, not_false_eq_true, List.map_cons, fitCount,
+      validate, decide_eq_true_eq, List.length_append, List.length_cons]
+    split
+    · rw [criGetLayers_acc key ls _ (by simp) (fun x hx => hall x (by simp [hx]))]
+      simp [preComma, List.length_append]
+    · simp [preComma]
+
+theorem criGetLayers_spec (key : Str) (c : Desc) (rest : List Desc) (hc : c.isLayer = true)
+    (hne : c.digest ≠ []) (hfit : key.length + c.digest.length ≤ maxSize) :
+    criGetLayers key (c :: rest) [] =
+      joinComma (c.digest :: ((layersOf rest).take
+        (fitCount key c.digest.length ((layersOf rest).map (·.digest)))).map (·.digest)) := by
+  rw [criGetLayers_layersOf]
+  have : layersOf (c :: rest) = c :: layersOf rest := by simp [layersOf, hc]
+  rw [this]
+  simp only [criGetLayers, hc, if_true, ne_eq, not_true_eq_false, if_false, List.nil_append, validate,
+    decide_eq_true_eq]
+  rw [if_pos hfit, criGetLayers_acc key _ _ hne (by intro l hl; simpa [layersOf] using (List.mem_filter.mp hl).2),
+    joinComma_cons]
+
+theorem layerFromDigest_cri (ref md : Str) (d : Str) : ∀ (cs : List Desc),
+    (layerFromDigest (criChildren ref md cs) d).map (·.urls) = (layerFromDigest cs d).map (·.urls)
+  | [] => rfl
+  | c :: cs => by
+    have ih := layerFromDigest_cri ref md d cs
+    simp only [criChildren, layerFromDigest]
+    cases hc : c.isLayer
+    · simp only [Bool.false_eq_true, if_false, hc]
+      split
+      · rfl
+      · exact ih
+    · simp only [if_true]
+      split
+      · rfl
+      · exact ih
+
+/-! ### extra flavour: `AppendExtraLabelsHandler` -/
+
+theorem extraInner_spec (children : List Desc) : ∀ (ds : List Str) (j : Nat) (a : Labels),
+    (∀ d ∈ ds, digestValid d = true) →
+    ∃ a', extraInner children j ds a = some a' ∧
+      (∀ m d, ds[m]? = some d → get a' (urlsKey (j + m)) =
+        match get a (urlsKey (j + m)) with
+        | some v => some v
+        | none => (layerFromDigest children d).map (fun l => appendWithValidation (urlsKey (j + m)) l.urls)) ∧
+      (∀ key, (∀ m, m < ds.length → key ≠ urlsKey (j + m)) → get a' key = get a key)
+  | [], _, a, _ => ⟨a, rfl, by simp, fun _ _ => rfl⟩
+  | d :: ds, j, a, hv => by
+    have hd := hv d (by simp)
+    have hvs : ∀ x ∈ ds, digestValid x = true := fun x hx => hv x (by simp [hx])
+    -- the accumulator after this entry
+    let a1 : Labels := match layerFromDigest children d with
+      | none => a
+      | some l => if (get a (urlsKey j)).isNone then set a (urlsKey j) (appendWithValidation (urlsKey j) l.urls) else a
+    have hstep : extraInner children j (d :: ds) a = extraInner children (j + 1) ds a1 := by
+      simp only [extraInner, hd, if_true, a1]
+      cases layerFromDigest children d <;> rfl
+    obtain ⟨a', h1, h2, h3⟩ := extraInner_spec children ds (j + 1) a1 hvs
+    have ha1 : ∀ key, key ≠ urlsKey j → get a1 key = get a key := by
+      intro key hk
+      simp only [a1]
+      split
+      · rfl
+      · split
+        · rw [get_set, if_neg hk]
+        · rfl
+    refine ⟨a', by rw [hstep, h1], ?_, ?_⟩
+    · intro m x hm
+      cases m with
+      | zero =>
+        simp only [List.getElem?_cons_zero, Option.some.injEq] at hm; subst hm
+        rw [Nat.add_zero, h3 _ (fun m _ e => by have := urlsKey_inj e; omega)]
+        simp only [a1]
+        cases hl : layerFromDigest children d with
+        | none => cases get a (urlsKey j) <;> simp
+        | some l =>
+          cases hg : get a (urlsKey j) with
+          | none => simp [get_set]
+          | some v => simp [hg]
+      | succ m =>
+        have := h2 m x (by simpa using hm)
+        rw [show j + 1 + m = j + (m + 1) by omega] at this
+        rw [this, ha1 _ (fun e => by have := urlsKey_inj e; omega)]
+    · intro key hkey
+      rw [h3 key (fun m hm => by
+        have := hkey (m + 1) (by simp; omega)
+        rwa [show j + (m + 1) = j + 1 + m by omega] at this)]
+      exact ha1 key (by simpa using hkey 0 (by simp))
+
+
+theorem kCriRef_length : kCriRef.length = 36 := by decide
+theorem kCriDigest_length : kCriDigest.length = 39 := by decide
+theorem kCriLayers_length : kCriLayers.length = 39 := by decide
+theorem kCriManifest_length : kCriManifest.length = 42 := by decide
+
+/-- The manifest's own annotations do not already carry the keys the extra handler fills in
+("nop if this key is already set"). -/
+def NoPreset (a : Labels) : Prop :=
+  get a kURLs = none ∧ get a kPrefetch = none ∧ ∀ j, get a (urlsKey j) = none
+
+theorem criLabels_get (ref md : Str) (c : Desc) (tail : List Desc) :
+    get (criLabels ref md c tail) kCriRef = some ref ∧
+    get (criLabels ref md c tail) kCriDigest = some c.digest ∧
+    get (criLabels ref md c tail) kCriLayers = some (criGetLayers kCriLayers tail []) ∧
+    get (criLabels ref md c tail) kCriManifest = some md ∧
+    (∀ key, key ≠ kCriRef → key ≠ kCriDigest → key ≠ kCriLayers → key ≠ kCriManifest →
+      get (criLabels ref md c tail) key = get (c.ann.getD []) key) := by
+  have e1 : kCriRef ≠ kCriManifest := by decide
+  have e2 : kCriRef ≠ kCriLayers := by decide
+  have e3 : kCriRef ≠ kCriDigest := by decide
+  have e4 : kCriDigest ≠ kCriManifest := by decide
+  have e5 : kCriDigest ≠ kCriLayers := by decide
+  have e6 : kCriLayers ≠ kCriManifest := by decide
+  unfold criLabels
+  refine ⟨by simp [get_set, e1, e2, e3], by simp [get_set, e4, e5], by simp [get_set, e6], by simp [get_set], ?_⟩
+  intro key h1 h2 h3 h4
+  simp [get_set, h1, h2, h3, h4]
+
+theorem extraChildren_ok (all : List Desc) (pf : Int) : ∀ (cs out : List Desc),
+    extraChildren all pf cs = .ok out →
+    out.length = cs.length ∧ ∀ (i : Nat) (c : Desc), cs[i]? = some c → ∃ c', extraChild all pf c = .ok c' ∧ out[i]? = some c'
+  | [], out, h => by
+    simp only [extraChildren, Outcome.ok.injEq] at h; subst h; simp
+  | c :: cs, out, h => by
+    simp only [extraChildren] at h
+    split at h
+    · rename_i c' hc'
+      split at h
+      · rename_i r hr
+        simp only [Outcome.ok.injEq] at h; subst h
+        obtain ⟨ihl, ih⟩ := extraChildren_ok all pf cs r hr
+        refine ⟨by simp [ihl], ?_⟩
+        intro i x hx
+        cases i with
+        | zero => simp only [List.getElem?_cons_zero, Option.some.injEq] at hx; subst hx; exact ⟨c', hc', by simp⟩
+        | succ i => simpa using ih i x (by simpa using hx)
+      · exact absurd h (by simp)
+      · exact absurd h (by simp)
+    · exact absurd h (by simp)
+    · exact absurd h (by simp)
+
+theorem extraChildren_of_all_ok (all : List Desc) (pf : Int) : ∀ (cs : List Desc),
+    (∀ c ∈ cs, ∃ c', extraChild all pf c = .ok c') → ∃ out, extraChildren all pf cs = .ok out
+  | [], _ => ⟨[], rfl⟩
+  | c :: cs, h => by
+    obtain ⟨c', hc'⟩ := h c (by simp)
+    obtain ⟨r, hr⟩ := extraChildren_of_all_ok all pf cs (fun x hx => h x (by simp [hx]))
+    exact ⟨c' :: r, by simp [extraChildren, hc', hr]⟩
+
+theorem criChildren_getElem (ref md : Str) : ∀ (cs : List Desc) (i : Nat) (c : Desc), cs[i]? = some c →
+    (criChildren ref md cs)[i]? =
+      some (if c.isLayer then { c with ann := some (criLabels ref md c (cs.drop i)) } else c)
+  | [], _, _, h => by simp at h
+  | x :: cs, 0, c, h => by
+    simp only [List.getElem?_cons_zero, Option.some.injEq] at h; subst h
+    simp [criChildren]
+  | x :: cs, i + 1, c, h => by
+    simp only [criChildren, List.getElem?_cons_succ, List.drop_succ_cons]
+    exact criChildren_getElem ref md cs i c (by simpa using h)
+
+theorem defaultChildren_getElem (ref : Str) (pf : Int) : ∀ (cs : List Desc) (i : Nat) (c : Desc), cs[i]? = some c →
+    (defaultChildren ref pf cs)[i]? =
+      some (if c.isLayer then { c with ann := some (defaultLabels ref pf c (cs.drop i)) } else c)
+  | [], _, _, h => by simp at h
+  | x :: cs, 0, c, h => by
+    simp only [List.getElem?_cons_zero, Option.some.injEq] at h; subst h
+    simp [defaultChildren]
+  | x :: cs, i + 1, c, h => by
+    simp only [defaultChildren, List.getElem?_cons_succ, List.drop_succ_cons]
+    exact defaultChildren_getElem ref pf cs i c (by simpa using h)
+
+theorem drop_eq_cons_of_getElem? {α : Type} : ∀ (l : List α) (i : Nat) (c : α), l[i]? = some c →
+    l.drop i = c :: l.drop (i + 1)
+  | [], _, _, h => by simp at h
+  | x :: l, 0, c, h => by simp at h; simp [h]
+  | x :: l, i + 1, c, h => by
+    simp only [List.drop_succ_cons]
+    exact drop_eq_cons_of_getElem? l i c (by simpa using h)
+
+
+/-! ### extra flavour: validity (all manifests) -/
+
+theorem splitComma_length_le : ∀ (s : Str), (splitComma s).length ≤ s.length + 1
+  | [] => by simp [splitComma]
+  | c :: cs => by
+    have ih := splitComma_length_le cs
+    simp only [splitComma]
+    split
+    · simp; omega
+    · split
+      · simp
+      · rename_i h t heq; rw [heq] at ih; simp at ih ⊢; omega
+
+theorem extraInner_valid (children : List Desc) : ∀ (ds : List Str) (j : Nat) (a a' : Labels),
+    (∀ m, m < ds.length → (urlsKey (j + m)).length ≤ maxSize) →
+    extraInner children j ds a = some a' →
+    ∀ k v, get a' k = some v → get a k = some v ∨ validate k v = true
+  | [], _, a, a', _, h => by
+    simp only [extraInner, Option.some.injEq] at h; subst h; exact fun _ _ h => Or.inl h
+  | d :: ds, j, a, a', hj, h => by
+    have hj' : ∀ m, m < ds.length → (urlsKey (j + 1 + m)).length ≤ maxSize := by
+      intro m hm
+      have := hj (m + 1) (by simp; omega)
+      rwa [show j + (m + 1) = j + 1 + m by omega] at this
+    simp only [extraInner] at h
+    split at h
+    · split at h
+      · exact extraInner_valid children ds (j + 1) a a' hj' h
+      · rename_i l _
+        intro k v hkv
+        rcases extraInner_valid children ds (j + 1) _ a' hj' h k v hkv with h' | h'
+        · split at h'
+          · rw [get_set] at h'
+            split at h'
+            · rename_i e; subst e
+              simp only [Option.some.injEq] at h'; subst h'
+              right; exact awv_valid _ _ (by simpa using hj 0 (by simp))
+            · exact Or.inl h'
+          · exact Or.inl h'
+        · exact Or.inr h'
+    · exact absurd h (by simp)
+
+theorem criGetLayers_valid (key : Str) : ∀ (tail : List Desc) (acc : Str),
+    validate key acc = true → validate key (criGetLayers key tail acc) = true
+  | [], _, h => by simpa [criGetLayers] using h
+  | l :: ls, acc, h => by
+    simp only [criGetLayers]
+    split
+    · generalize (if acc ≠ [] then ',' :: l.digest else l.digest) = item
+      split
+      · rename_i hv; exact criGetLayers_valid key ls _ hv
+      · exact h
+    · exact criGetLayers_valid key ls acc h
+
+theorem criLabels_valid (ref md : Str) (c : Desc) (tail : List Desc)
+    (href : kCriRef.length + ref.length ≤ maxSize) (hdig : kCriDigest.length + c.digest.length ≤ maxSize)
+    (hmd : kCriManifest.length + md.length ≤ maxSize) :
+    ∀ k v, get (criLabels ref md c tail) k = some v → get (c.ann.getD []) k = some v ∨ validate k v = true := by
+  intro k v h
+  unfold criLabels at h
+  simp only [get_set] at h
+  split at h
+  · rename_i e; subst e; simp only [Option.some.injEq] at h; subst h
+    right; simpa [validate] using hmd
+  · split at h
+    · rename_i e; subst e; simp only [Option.some.injEq] at h; subst h
+      right; exact criGetLayers_valid _ _ _ (by decide)
+    · split at h
+      · rename_i e; subst e; simp only [Option.some.injEq] at h; subst h
+        right; simpa [validate] using hdig
+      · split at h
+        · rename_i e; subst e; simp only [Option.some.injEq] at h; subst h
+          right; simpa [validate] using href
+        · exact Or.inl h
+
+theorem extraChild_valid (all : List Desc) (pf : Int) (c c' : Desc) (a : Labels)
+    (hpf : -(2 ^ 63) ≤ pf ∧ pf < 2 ^ 63) (hl : c.isLayer = true) (hc : c.ann = some a)
+    (hnl : ∀ nl, get a kCriLayers = some nl → nl.length ≤ maxSize)
+    (h : extraChild all pf c = .ok c') :
+    ∃ a', c'.ann = some a' ∧ ∀ k v, get a' k = some v → get a k = some v ∨ validate k v = true := by
+  unfold extraChild at h
+  simp only [hl, Bool.not_true, Bool.false_eq_true, if_false, hc] at h
+  -- the two conditional writes
+  generalize ha1 : (if (get a kURLs).isNone = true then set a kURLs (appendWithValidation kURLs c.urls) else a) = a1 at h
+  generalize ha2 : (if (get a1 kPrefetch).isNone = true then set a1 kPrefetch (intDec pf) else a1) = a2 at h
+  have v1 : ∀ k v, get a1 k = some v → get a k = some v ∨ validate k v = true := by
+    intro k v hk; rw [← ha1] at hk
+    split at hk
+    · rw [get_set] at hk
+      split at hk
+      · rename_i e; subst e; simp only [Option.some.injEq] at hk; subst hk
+        right; exact awv_valid _ _ (by decide)
+      · exact Or.inl hk
+    · exact Or.inl hk
+  have v2 : ∀ k v, get a2 k = some v → get a k = some v ∨ validate k v = true := by
+    intro k v hk; rw [← ha2] at hk
+    split at hk
+    · rw [get_set] at hk
+      split at hk
+      · rename_i e; subst e; simp only [Option.some.injEq] at hk; subst hk
+        right
+        have := intDec_length_le pf hpf
+        simp only [validate, decide_eq_true_eq, kPrefetch_length, maxSize]; omega
+      · exact v1 k v hk
+    · exact v1 k v hk
+  have hcl : get a2 kCriLayers = get a kCriLayers := by
+    have e1 : kCriLayers ≠ kURLs := by decide
+    have e2 : kCriLayers ≠ kPrefetch := by decide
+    rw [← ha2, ← ha1]
+    split <;> split <;> simp [get_set, e1, e2]
+  split at h
+  · simp only [Outcome.ok.injEq] at h; subst h
+    exact ⟨a2, rfl, v2⟩
+  · rename_i nl hnl'
+    split at h
+    · exact absurd h (by simp)
+    · rename_i a3 h3
+      simp only [Outcome.ok.injEq] at h; subst h
+      refine ⟨a3, rfl, ?_⟩
+      intro k v hk
+      have hlen := hnl nl (by rw [← hcl]; exact hnl')
+      have hsl := splitComma_length_le nl
+      rcases extraInner_valid all _ 0 a2 a3 (fun m hm => urlsKey_length_le _ (by
+        simp only [maxSize] at hlen; omega)) h3 k v hk with h' | h'
+      · exact v2 k v h'
+      · exact Or.inr h'
+
+
+/-! ### extra flavour: labels of one layer and what the CRI reader makes of them -/
+
+/-- URLs the extra handler attaches to label index `m` for a neighbour with digest `d`: those of the
+FIRST child carrying that digest, if that child is a layer. -/
+def urlsByDigest (children : List Desc) (m : Nat) (d : Str) : List Str :=
+  match layerFromDigest children d with
+  | some x => readURLs (urlsKey m) x.urls
+  | none => []
+
+theorem extraChild_cri_spec (all children : List Desc)
+    (hall : ∀ d, (layerFromDigest all d).map (·.urls) = (layerFromDigest children d).map (·.urls))
+    (ref md : Str) (pf : Int) (c : Desc) (rest : List Desc) (hc : c.isLayer = true)
+    (hd : ∀ l ∈ c :: layersOf rest, digestValid l.digest = true) (hnp : NoPreset (c.ann.getD [])) :
+    ∃ a', extraChild all pf { c with ann := some (criLabels ref md c (c :: rest)) } =
+        .ok { c with ann := some a' } ∧
+      get a' kCriRef = some ref ∧ get a' kCriDigest = some c.digest ∧
+      get a' kCriLayers = some (joinComma (c.digest :: ((layersOf rest).take
+        (fitCount kCriLayers c.digest.length ((layersOf rest).map (·.digest)))).map (·.digest))) ∧
+      get a' kURLs = some (appendWithValidation kURLs c.urls) ∧
+      get a' kPrefetch = some (intDec pf) ∧
+      ∀ (m : Nat) (l : Desc), (c :: (layersOf rest).take
+          (fitCount kCriLayers c.digest.length ((layersOf rest).map (·.digest))))[m]? = some l →
+        get a' (urlsKey m) =
+          (layerFromDigest children l.digest).map (fun x => appendWithValidation (urlsKey m) x.urls) := by
+  obtain ⟨c1, c2, c3, _, c5⟩ := criLabels_get ref md c (c :: rest)
+  obtain ⟨n1, n2, n3⟩ := hnp
+  have hcd := hd c (by simp)
+  have hcl := digestValid_length _ hcd
+  generalize hK : fitCount kCriLayers c.digest.length ((layersOf rest).map (·.digest)) = K
+  generalize ha0 : criLabels ref md c (c :: rest) = a0 at *
+  -- the layers label written by containerd
+  have hlay : get a0 kCriLayers = some (joinComma (c.digest :: ((layersOf rest).take K).map (·.digest))) := by
+    rw [c3, criGetLayers_spec kCriLayers c rest hc (digestValid_ne_nil _ hcd)
+      (by rw [kCriLayers_length]; simp only [maxSize]; omega), hK]
+  have g0U : get a0 kURLs = none := by
+    rw [c5 kURLs (by decide) (by decide) (by decide) (by decide)]; exact n1
+  have g0P : get a0 kPrefetch = none := by
+    rw [c5 kPrefetch (by decide) (by decide) (by decide) (by decide)]; exact n2
+  have g0I : ∀ m, get a0 (urlsKey m) = none := by
+    intro m
+    rw [c5 _ (urlsKey_ne_kCriRef m) (urlsKey_ne_kCriDigest m) (urlsKey_ne_kCriLayers m)
+      (urlsKey_ne_kCriManifest m)]; exact n3 m
+  -- the accumulator the inner loop starts from
+  let a2 : Labels := set (set a0 kURLs (appendWithValidation kURLs c.urls)) kPrefetch (intDec pf)
+  have hds : ∀ d ∈ (c :: (layersOf rest).take K).map (·.digest), digestValid d = true := by
+    intro d hdm
+    obtain ⟨l, hl, rfl⟩ := List.mem_map.mp hdm
+    rcases List.mem_cons.mp hl with e | e
+    · subst e; exact hcd
+    · exact hd l (by simp [List.mem_of_mem_take e])
+  obtain ⟨a', i1, i2, i3⟩ := extraInner_spec all ((c :: (layersOf rest).take K).map (·.digest)) 0 a2 hds
+  have hsplit : splitComma (joinComma (c.digest :: ((layersOf rest).take K).map (·.digest))) =
+      (c :: (layersOf rest).take K).map (·.digest) := by
+    rw [List.map_cons]
+    exact split_joinComma _ _ (fun y hy => digestValid_noComma _ (hds y (by simpa using hy)))
+  have e1 : kPrefetch ≠ kURLs := by decide
+  have e2 : kCriLayers ≠ kURLs := by decide
+  have e3 : kCriLayers ≠ kPrefetch := by decide
+  refine ⟨a', ?_, ?_, ?_, ?_, ?_, ?_, ?_⟩
+  · unfold extraChild
+    simp only [hc, Bool.not_true, Bool.false_eq_true, if_false, g0U, Option.isNone_none, if_true,
+      get_set, if_neg e1, g0P, if_neg e2, if_neg e3, hlay, hsplit]
+    show (match extraInner all 0 _ a2 with | none => Outcome.err | some a => Outcome.ok _) = _
+    rw [i1]
+  · rw [i3 _ (fun m _ => (urlsKey_ne_kCriRef _).symm)]
+    simp only [a2, get_set]
+    rw [if_neg (by decide), if_neg (by decide)]; exact c1
+  · rw [i3 _ (fun m _ => (urlsKey_ne_kCriDigest _).symm)]
+    simp only [a2, get_set]
+    rw [if_neg (by decide), if_neg (by decide)]; exact c2
+  · rw [i3 _ (fun m _ => (urlsKey_ne_kCriLayers _).symm)]
+    simp only [a2, get_set]
+    rw [if_neg e3, if_neg e2]; exact hlay
+  · rw [i3 _ (fun m _ => (urlsKey_ne_kURLs _).symm)]
+    simp only [a2, get_set]
+    rw [if_neg (by decide)]; simp
+  · rw [i3 _ (fun m _ => (urlsKey_ne_kPrefetch _).symm)]
+    simp [a2, get_set]
+  · intro m l hml
+    have := i2 m l.digest (by rw [List.getElem?_map, hml]; rfl)
+    rw [Nat.zero_add] at this
+    rw [this]
+    have : get a2 (urlsKey m) = none := by
+      simp only [a2, get_set]
+      rw [if_neg (urlsKey_ne_kPrefetch m), if_neg (urlsKey_ne_kURLs m)]; exact g0I m
+    rw [this]
+    show (layerFromDigest all l.digest).map _ = _
+    have h1 := hall l.digest
+    cases h2 : layerFromDigest all l.digest <;> cases h3 : layerFromDigest children l.digest <;>
+      simp_all
+
+/-- Reader ∘ (extra handler on containerd's CRI labels) on one layer: the exact source that comes back
+(all manifests; non-layer children anywhere). -/
+theorem extra_read_spec {R : Type} (parseRef : Str → Option R) (children : List Desc) (a' : Labels)
+    (ref : Str) (c : Desc) (L : List Desc) (K : Nat) (r : R)
+    (hd : ∀ l ∈ c :: L, digestValid l.digest = true) (hr : parseRef ref = some r)
+    (g1 : get a' kCriRef = some ref) (g2 : get a' kCriDigest = some c.digest)
+    (g3 : get a' kCriLayers = some (joinComma (c.digest :: (L.take K).map (·.digest))))
+    (g4 : get a' kURLs = some (appendWithValidation kURLs c.urls))
+    (g5 : ∀ (m : Nat) (l : Desc), (c :: L.take K)[m]? = some l → get a' (urlsKey m) =
+          (layerFromDigest children l.digest).map (fun x => appendWithValidation (urlsKey m) x.urls)) :
+    readSource parseRef criKeys a' =
+      some { name := r, target := c.digest, urls := readURLs kURLs c.urls,
+             neighbours := nbSpec c.digest (fun m l => urlsByDigest children m l.digest) 1 (L.take K) } := by
+  have hcd := hd c (by simp)
+  have hds : ∀ l ∈ c :: L.take K, digestValid l.digest = true := by
+    intro l hl
+    rcases List.mem_cons.mp hl with e | e
+    · subst e; exact hcd
+    · exact hd l (by simp [List.mem_of_mem_take e])
+  have hsplit : splitComma (joinComma (c.digest :: (L.take K).map (·.digest))) =
+      (c :: L.take K).map (·.digest) := by
+    rw [List.map_cons]
+    refine split_joinComma _ _ (fun y hy => ?_)
+    have : y ∈ (c :: L.take K).map (·.digest) := by simpa using hy
+    obtain ⟨l, hl, rfl⟩ := List.mem_map.mp this
+    exact digestValid_noComma _ (hds l hl)
+  unfold readSource
+  simp only [criKeys, g1, hr, g2, hcd, if_true, g3, g4, hsplit]
+  rw [neighboursLoop_spec _ _ _ _ hds]
+  simp only [nbSpec, ne_eq, not_true_eq_false, if_false, Nat.zero_add]
+  congr 2
+  apply nbSpec_congr
+  intro m l hml
+  have := g5 (1 + m) l (by rw [Nat.add_comm]; simpa using hml)
+  unfold urlsAt urlsByDigest
+  rw [this]
+  cases layerFromDigest children l.digest <;> rfl
+
+
+/-! ### panics, consumption at mount, consistency of repeated digests -/
+
+theorem extraChild_panic (all : List Desc) (pf : Int) (c : Desc) (h : extraChild all pf c = .panic) :
+    c.isLayer = true ∧ c.ann = none := by
+  unfold extraChild at h
+  cases hl : c.isLayer with
+  | false => simp [hl] at h
+  | true =>
+    simp only [hl, Bool.not_true, Bool.false_eq_true, if_false] at h
+    cases ha : c.ann with
+    | none => exact ⟨rfl, rfl⟩
+    | some a =>
+      simp only [ha] at h
+      split at h
+      · exact absurd h (by simp)
+      · split at h <;> exact absurd h (by simp)
+
+theorem extraChildren_panic (all : List Desc) (pf : Int) : ∀ (cs : List Desc),
+    extraChildren all pf cs = .panic → ∃ c ∈ cs, extraChild all pf c = .panic
+  | [], h => by simp [extraChildren] at h
+  | c :: cs, h => by
+    simp only [extraChildren] at h
+    split at h
+    · split at h
+      · exact absurd h (by simp)
+      · exact absurd h (by simp)
+      · rename_i hp
+        obtain ⟨x, hx, hxp⟩ := extraChildren_panic all pf cs hp
+        exact ⟨x, by simp [hx], hxp⟩
+    · exact absurd h (by simp)
+    · rename_i hp; exact ⟨c, by simp, hp⟩
+
+theorem criChildren_ann (ref md : Str) : ∀ (cs : List Desc) (c : Desc), c ∈ criChildren ref md cs →
+    c.isLayer = true → c.ann ≠ none
+  | [], _, h, _ => by simp [criChildren] at h
+  | x :: cs, c, h, hl => by
+    simp only [criChildren, List.mem_cons] at h
+    rcases h with e | e
+    · subst e
+      cases hx : x.isLayer with
+      | true => simp
+      | false => simp [hx] at hl
+    · exact criChildren_ann ref md cs c e hl
+
+theorem neighboursLoop_ne_target (labels : Labels) (target : Str) : ∀ (ds : List Str) (j : Nat)
+    (nb : List (Str × List Str)), neighboursLoop labels target j ds = some nb → ∀ p ∈ nb, p.1 ≠ target
+  | [], _, nb, h => by
+    simp only [neighboursLoop, Option.some.injEq] at h; subst h; simp
+  | d :: ds, j, nb, h => by
+    simp only [neighboursLoop] at h
+    split at h
+    · split at h
+      · exact absurd h (by simp)
+      · rename_i rest hrest
+        have ih := neighboursLoop_ne_target labels target ds (j + 1) rest hrest
+        split at h
+        · rename_i hne
+          simp only [Option.some.injEq] at h; subst h
+          intro p hp
+          rcases List.mem_cons.mp hp with e | e
+          · subst e; exact hne
+          · exact ih p e
+        · simp only [Option.some.injEq] at h; subst h; exact ih
+    · exact absurd h (by simp)
+
+theorem readSource_neighbours_ne_target {R : Type} (parseRef : Str → Option R) (ks : ReaderKeys)
+    (labels : Labels) (s : Source R) (h : readSource parseRef ks labels = some s) :
+    ∀ p ∈ s.neighbours, p.1 ≠ s.target := by
+  unfold readSource at h
+  split at h
+  · exact absurd h (by simp)
+  · split at h
+    · exact absurd h (by simp)
+    · split at h
+      · exact absurd h (by simp)
+      · rename_i d _
+        split at h
+        · split at h
+          · exact absurd h (by simp)
+          · rename_i nb hnb
+            simp only [Option.some.injEq] at h; subst h
+            split at hnb
+            · exact neighboursLoop_ne_target labels d _ 0 nb hnb
+            · simp only [Option.some.injEq] at hnb; subst hnb; simp
+        · exact absurd h (by simp)
+
+/-- If equal digests carry equal descriptors (URLs, layer-ness) then looking a layer up by digest finds
+its own URLs. -/
+theorem layerFromDigest_consistent : ∀ (children : List Desc) (l : Desc), l ∈ children → l.isLayer = true →
+    (∀ x ∈ children, x.digest = l.digest → x.isLayer = true ∧ x.urls = l.urls) →
+    ∃ x, layerFromDigest children l.digest = some x ∧ x.urls = l.urls
+  | [], _, h, _, _ => by simp at h
+  | y :: ys, l, hmem, hl, hcons => by
+    simp only [layerFromDigest]
+    split
+    · rename_i e
+      obtain ⟨h1, h2⟩ := hcons y (by simp) e
+      exact ⟨y, by simp [h1], h2⟩
+    · rename_i ne
+      rcases List.mem_cons.mp hmem with e | e
+      · subst e; exact absurd rfl ne
+      · exact layerFromDigest_consistent ys l e hl (fun x hx => hcons x (by simp [hx]))
+
+theorem mem_layersOf {l : Desc} {cs : List Desc} (h : l ∈ layersOf cs) : l ∈ cs ∧ l.isLayer = true := by
+  unfold layersOf at h; simpa using List.mem_filter.mp h
+
+
+theorem criChildren_length (ref md : Str) : ∀ (cs : List Desc), (criChildren ref md cs).length = cs.length
+  | [] => rfl
+  | c :: cs => by simp [criChildren, criChildren_length ref md cs]
+
 end SV.Labels
